@@ -275,6 +275,20 @@ func errorDomains(c *engine.Ctx, id string, pkgs []string) {
 		got := d.Of(prods[0])
 		// only definite cross-domain mismatches count: a raw (third-party) error reaching errors.Status
 		// is converted to Internal by design, and "raw" is too weak an inference to arm
+		// strict for the southbound client: its methods exist to turn device (gRPC) errors into typed ones
+		strict := strings.HasPrefix(engine.ShortFuncName(prods[0]), "southbound/gnmi.Client.")
+		if strict && want == engine.DomTyped && got != engine.DomTyped && got != engine.DomNone {
+			// in the controllers every classified error comes from a store, topo or southbound interface of
+			// this module, whose implementations wrap what they get from Atomix / gRPC: an implementation
+			// that forwards a third-party error unwrapped makes every typed classification miss
+			impl := ""
+			for _, im := range d.Implementations(prods[0]) {
+				impl += " " + engine.ShortFuncName(im) + "=" + d.Of(im).String()
+			}
+			o.Fail(&engine.Violation{Key: cs.Func + "|" + cs.Callee + " on unwrapped error of " + engine.ShortFuncName(prods[0]), Pos: cs.Pos, Func: cs.Func,
+				Msg: fmt.Sprintf("%s classifies the error of %s, which is not a typed error on every path (%s; implementations:%s): an unwrapped gRPC/Atomix error is classified as Internal/no class", cs.Callee, engine.ShortFuncName(prods[0]), got, impl)})
+			continue
+		}
 		if (got == engine.DomTyped || got == engine.DomGRPC) && got != want {
 			impl := ""
 			for _, im := range d.Implementations(prods[0]) {
